@@ -192,3 +192,99 @@ def run_re(ctx, n, drv=None):
         if e != o:
             mm.append(Mismatch('re', i, dict(version=v, pattern_id=pid, pattern=tab[v][pid].pattern[:200], pos=pos, text=s), e, o))
     return mm
+
+
+# ---- refactor and issue-store streams (Refactor.v / Issues.v vs implementation) ----
+def node_paths(m):
+    out = []
+
+    def rec(n, p):
+        out.append((p, n))
+        if hasattr(n, 'children'):
+            for i, c in enumerate(n.children):
+                rec(c, p + (i,))
+    rec(m, ())
+    return out
+
+
+def run_refactor(ctx, n, drv=None):
+    import parso
+    drv = drv or Driver()
+    cases = []
+    for i in range(n):
+        r = gens.rng(ctx.seed, 'refactor-opt', i)
+        kind, code = gens.text_case(ctx.seed, 'refactor', i)
+        v = r.choice(versions())
+        g = parso.load_grammar(version=v)
+        try:
+            m = g.parse(code)
+        except Exception:
+            continue
+        nodes = node_paths(m)
+        chosen = {}
+        for p, nd in nodes:
+            if r.random() < 0.12 and not any(p[:len(q)] == q for q in chosen):
+                chosen[p] = (nd, '<%d>' % len(chosen) if r.random() < 0.8 else '')
+        try:
+            e = g.refactor(m, {nd: s for p, (nd, s) in chosen.items()})
+        except Exception as ex:
+            e = 'ERR ' + type(ex).__name__
+        req = 'refactor %s %s %d %s' % (impl.vn(v), impl.enc_str(code), len(chosen),
+                                        ' '.join('%d %s %s' % (len(p), ' '.join(map(str, p)), impl.enc_str(s)) for p, (nd, s) in chosen.items()))
+        cases.append((v, code, {p: s for p, (nd, s) in chosen.items()}, e, req))
+    outs = drv.run([c[4] for c in cases])
+    mm = []
+    for i, (c, o) in enumerate(zip(cases, outs)):
+        v, code, chosen, e, req = c
+        ctx.count('refactor')
+        exp = e if e.startswith('ERR ') else impl.cps(e)
+        if chosen:
+            ctx.nontrivial(('refactor', e))
+        if exp != o:
+            mm.append(Mismatch('refactor', i, dict(version=v, text=code, replacements={str(list(k)): s for k, s in chosen.items()}), exp, o))
+    if cases:
+        ctx.sample(dict(stream='refactor', text=cases[0][1][:120], replacements={str(list(k)): s for k, s in cases[0][2].items()}, result=cases[0][3][:120]))
+    return mm
+
+
+class _FakeNode:
+    def __init__(self, line, col):
+        self.start_pos = (line, col)
+        self.end_pos = (line, col + 1)
+
+
+def run_issues(ctx, n, drv=None):
+    import parso
+    from parso.normalizer import Normalizer
+    from parso.python.errors import ErrorFinder
+    drv = drv or Driver()
+    g = parso.load_grammar()
+    mod = g.parse('x\n')
+    cases = []
+    for i in range(n):
+        r = gens.rng(ctx.seed, 'issues', i)
+        kind = r.randrange(2)
+        seq = [(r.choice([901, 903, 1, 2]), r.randint(1, 4), r.randint(0, 2)) for _ in range(r.randint(0, 10))]
+        if kind == 0:
+            nz = Normalizer(g, None)
+            for j, (code, line, col) in enumerate(seq):
+                nz.add_issue(_FakeNode(line, col), code, str(j))
+            res = nz.issues
+        else:
+            ef = ErrorFinder(g, None)
+            ef.initialize(mod)
+            for j, (code, line, col) in enumerate(seq):
+                ef.add_issue(_FakeNode(line, col), code, str(j))
+            ef.finalize()
+            res = ef.issues
+        e = ';'.join('%d %d %d %s' % (x.code, x.start_pos[0], x.start_pos[1], x.message) for x in res)
+        cases.append((kind, seq, e))
+    outs = drv.run(['issues %d %d %s' % (k, len(seq), ' '.join('%d %d %d' % x for x in seq)) for k, seq, e in cases])
+    mm = []
+    for i, ((k, seq, e), o) in enumerate(zip(cases, outs)):
+        ctx.count('issues')
+        if len(seq) > len(e.split(';')):
+            ctx.nontrivial(('issues', k, tuple(seq)))
+        if e != o:
+            mm.append(Mismatch('issues', i, dict(kind='Normalizer.add_issue' if k == 0 else 'ErrorFinder.add_issue+finalize', calls=seq), e, o))
+    return mm
